@@ -88,6 +88,15 @@ fn recipe_spec(rng: &mut Rng, w: &World, name_only_timers: bool) -> RecipeSpec {
                 let name = *rng.pick(&defined); let q = q_spec(rng, w);
                 s.push_str(&format!("More @&{name}{{{}}}. ", q.text())); ings.push(Some(q));
             }
+            // the same quantity written twice, on two ingredients, once locked with `=` and once not, in either order
+            // (what one component becomes must not depend on another one that happens to be written alike)
+            7 if rng.chance(1, 2) => {
+                let (n1, n2) = (*rng.pick(&ING), *rng.pick(&ING));
+                let mut q1 = q_spec(rng, w); let mut q2 = q1.clone();
+                q1.lock = rng.chance(1, 2); q2.lock = !q1.lock;
+                s.push_str(&format!("Mix @{n1}{{{}}} with @{n2}{{{}}}. ", q1.text(), q2.text()));
+                ings.push(Some(q1)); ings.push(Some(q2)); defined.push(n1); defined.push(n2);
+            }
             _ => { let name = *rng.pick(&ING); let q = q_spec(rng, w); s.push_str(&format!("Add @{name}{{{}}}. ", q.text())); ings.push(Some(q)); defined.push(name); }
         }
         if rng.chance(1, 4) { s.push_str("\n\n"); }
